@@ -664,6 +664,38 @@ func star(s *scen) {
 		}
 	}
 	s.release(-1)
+	// the application owns what Recv returned: it may refill that very object and send it on the same socket -- every
+	// other member gets it, the one the earlier message came from included
+	for _, from := range []*sock{l1, l2} {
+		s.send(from, nil, s.body("ask", 40))
+		h, err := s.recv(c)
+		if err != nil {
+			s.note("hub did not receive: %v", err)
+			continue
+		}
+		s.drop(h)
+		app(opAppFree, h.m)
+		want := s.body("ans", 50)
+		h.m.Body = append(h.m.Body[:0], want...)
+		if err := c.SendMsg(h.m); err != nil {
+			s.failed(h.m, want, err)
+			continue
+		}
+		for _, to := range []*sock{l1, l2} {
+			g, err := s.recv(to)
+			if err == nil && !bytes.Equal(g.m.Body, want) {
+				g, err = s.recv(to) // the other leaf first gets the question, relayed by the hub
+			}
+			if err != nil || !bytes.Equal(g.m.Body, want) {
+				s.mu.Lock()
+				s.errOK = false
+				s.mu.Unlock()
+				s.note("a message object returned by Recv, refilled and sent again on the same socket, did not reach every member: %v", err)
+			}
+		}
+		s.settle("star reuse")
+		s.release(-1)
+	}
 }
 
 // raw XSTAR leaf and centre.
